@@ -1,9 +1,12 @@
 (** C20 — The default timestamp is the correct UTC calendar time for every instant.
     Statements only; proofs live in Time/CivilProofs.v, Time/MuslProofs.v, Time/DisplayProofs.v.
 
-    Model: Time/Musl.v = tracing-subscriber/src/fmt/time/datetime.rs transcribed on Z ([from_systemtime],
-    [display], [format_system_time]), its constants taken from TVGen.Gen_time_consts (regenerated from the source
-    on every run).  A SystemTime is (tv_sec : i64, tv_nsec in [0,1e9)) = [valid_systemtime]: the quantifier
+    Model: Time/Musl.v = tracing-subscriber/src/fmt/time/datetime.rs on Z ([from_systemtime], [display],
+    [format_system_time]).  Nothing of it is written by hand: the constants are TVGen.Gen_time_consts and every
+    statement of `From<SystemTime>::from` and `Display::fmt` (casts, overflow points, the pre-epoch branch, the
+    three year-padding branches, `nanos / 1_000`, the format strings) is TVGen.Gen_datetime, both translated from
+    the source on every run, in the vocabulary of Time/MuslBase.v (Rust integer operations per build profile,
+    std's duration_since and integer formatting).  A SystemTime is (tv_sec : i64, tv_nsec in [0,1e9)) = [valid_systemtime]: the quantifier
     "every instant the system clock can represent" is literally [forall tv_sec tv_nsec, valid_systemtime ..].
     Build profiles are modes: [release] (wrapping arithmetic, no debug_assert), [debug] (overflow and
     debug_assert panic = None), [strict] (additionally every cast must be the identity).
@@ -35,75 +38,114 @@ Theorem C20_decomposition_unique : forall y m d h mi s y' m' d' h' mi' s',
 Proof. exact secs_from_civil_inj. Qed.
 Print Assumptions C20_decomposition_unique.
 
-(** ** Headline: for EVERY instant of SystemTime, the computed record is that instant's UTC date and time *)
-Theorem C20_correct : forall tv_sec tv_nsec, valid_systemtime tv_sec tv_nsec ->
-  exists dt, from_systemtime release tv_sec tv_nsec = Some dt /\
+(** ** Headline: for EVERY instant of SystemTime, in both shipped build profiles, the computed record is that
+    instant's UTC date and time.  No instant is excluded: the earliest representable one, UNIX_EPOCH - 2^63 s
+    (finding F20, repaired in /repo a774a84), is inside the theorem. *)
+Theorem C20_correct : forall md, md = release \/ md = debug ->
+  forall tv_sec tv_nsec, valid_systemtime tv_sec tv_nsec ->
+  exists dt, from_systemtime md tv_sec tv_nsec = Some dt /\
     valid_date (year dt) (month dt) (day dt) /\
     valid_time (hour dt) (minute dt) (second dt) /\
     secs_from_civil (year dt) (month dt) (day dt) (hour dt) (minute dt) (second dt) = tv_sec /\
     nanos dt = tv_nsec.
-Proof. exact correct_release. Qed.
+Proof. exact correct_shipped. Qed.
 Print Assumptions C20_correct.
 
 Example C20_correct_nonvacuous :
   valid_systemtime 0 0 /\ valid_systemtime (-1) 999999999 /\
   valid_systemtime I64_MIN 0 /\ valid_systemtime I64_MAX 999999999 /\
   from_systemtime release 951782399 123456789 = Some (DT 2000 2 28 23 59 59 123456789) /\
-  from_systemtime release 951782400 0 = Some (DT 2000 2 29 0 0 0 0).
+  from_systemtime release 951782400 0 = Some (DT 2000 2 29 0 0 0 0) /\
+  from_systemtime debug I64_MIN 0 = Some (DT (-292277022657) 1 27 8 29 52 0).
 Proof. unfold valid_systemtime, I64_MIN, I64_MAX, NANOS_PER_SEC. repeat split; try discriminate; vm_compute; reflexivity. Qed.
 
 (** The same, functionally: the record is the one the inverse calendar function gives. *)
-Theorem C20_correct_functional : forall tv_sec tv_nsec, valid_systemtime tv_sec tv_nsec ->
-  from_systemtime release tv_sec tv_nsec = Some (dt_of_civil (civil_from_secs tv_sec) tv_nsec).
-Proof. exact correct_release_functional. Qed.
+Theorem C20_correct_functional : forall md, md = release \/ md = debug ->
+  forall tv_sec tv_nsec, valid_systemtime tv_sec tv_nsec ->
+  from_systemtime md tv_sec tv_nsec = Some (dt_of_civil (civil_from_secs tv_sec) tv_nsec).
+Proof. exact correct_functional. Qed.
 Print Assumptions C20_correct_functional.
 
-(** ** No overflow: every cast is the identity, no arithmetic overflows, no assertion fails, no index is out
-    of bounds; debug and release builds agree.  Known finding F20: the single instant (i64::MIN, 0). *)
-Theorem C20_no_overflow : forall tv_sec tv_nsec, valid_systemtime tv_sec tv_nsec -> ~ F20_instant tv_sec tv_nsec ->
-  exists dt, from_systemtime strict tv_sec tv_nsec = Some dt /\ from_systemtime debug tv_sec tv_nsec = Some dt /\
-             from_systemtime release tv_sec tv_nsec = Some dt /\ is_civil_time_of dt tv_sec tv_nsec.
+(** ** No overflow, for every instant: with overflow checks and debug assertions on ([debug]) nothing panics —
+    no arithmetic overflows, no assertion fails, no index is out of bounds — and the result is the release
+    build's.  No cast changes a value either ([strict]: every `as` / `from` must be the identity), for every
+    instant but the earliest, where the code wraps on purpose (next theorem). *)
+Theorem C20_no_overflow : forall tv_sec tv_nsec, valid_systemtime tv_sec tv_nsec ->
+  exists dt, from_systemtime debug tv_sec tv_nsec = Some dt /\ from_systemtime release tv_sec tv_nsec = Some dt /\
+             is_civil_time_of dt tv_sec tv_nsec /\
+             (~ earliest_instant tv_sec tv_nsec -> from_systemtime strict tv_sec tv_nsec = Some dt).
 Proof. exact no_overflow. Qed.
 Print Assumptions C20_no_overflow.
 
 Example C20_no_overflow_nonvacuous :
-  valid_systemtime (I64_MIN + 1) 0 /\ ~ F20_instant (I64_MIN + 1) 0 /\
-  valid_systemtime I64_MIN 1 /\ ~ F20_instant I64_MIN 1.
-Proof. unfold valid_systemtime, F20_instant, I64_MIN, I64_MAX, NANOS_PER_SEC. repeat split; try discriminate; intros [A B]; discriminate. Qed.
+  valid_systemtime (I64_MIN + 1) 0 /\ ~ earliest_instant (I64_MIN + 1) 0 /\
+  valid_systemtime I64_MIN 1 /\ ~ earliest_instant I64_MIN 1.
+Proof. unfold valid_systemtime, earliest_instant, I64_MIN, I64_MAX, NANOS_PER_SEC. repeat split; try discriminate; intros [A B]; discriminate. Qed.
 
-Theorem C20_no_overflow_F20_refuted :
-  valid_systemtime I64_MIN 0 /\ F20_instant I64_MIN 0 /\
-  from_systemtime debug I64_MIN 0 = None /\ from_systemtime strict I64_MIN 0 = None /\
-  exists dt, from_systemtime release I64_MIN 0 = Some dt /\ is_civil_time_of dt I64_MIN 0.
-Proof. exact F20_refuted. Qed.
-Print Assumptions C20_no_overflow_F20_refuted.
+(** The earliest instant: std reports a distance of 2^63 s back to the epoch; `as i64` turns it into i64::MIN
+    and `wrapping_neg` leaves it there — the two value-changing steps [strict] reports — and both shipped
+    profiles produce the right record. *)
+Theorem C20_earliest_instant_wraps_by_design :
+  valid_systemtime I64_MIN 0 /\ earliest_instant I64_MIN 0 /\
+  from_systemtime strict I64_MIN 0 = None /\
+  std_duration_since_epoch I64_MIN 0 = DErr 9223372036854775808 0 /\
+  wrap I64 9223372036854775808 = I64_MIN /\ wrap I64 (- I64_MIN) = I64_MIN /\
+  exists dt, from_systemtime debug I64_MIN 0 = Some dt /\ from_systemtime release I64_MIN 0 = Some dt /\
+             is_civil_time_of dt I64_MIN 0.
+Proof. exact earliest_instant_wraps_by_design. Qed.
+Print Assumptions C20_earliest_instant_wraps_by_design.
 
-(** ** Instants before 1970: std reports the distance back to the epoch; the code recovers floor semantics. *)
+(** Finding F20, for the record: with the Err branch as it was before a774a84 ([split_before_a774a84]:
+    `debug_assert!(.. <= i64::MAX as u64)`, `(-secs, 0)`) the debug build panicked at the earliest instant; the
+    release build was right; the current source is right in both; nothing else changed. *)
+Theorem C20_F20_old_shape_refuted :
+  valid_systemtime I64_MIN 0 /\
+  split_before_a774a84 debug I64_MIN 0 = None /\
+  split_before_a774a84 release I64_MIN 0 = Some (I64_MIN, 0) /\
+  split debug I64_MIN 0 = Some (I64_MIN, 0) /\
+  (forall sec nsec, valid_systemtime sec nsec -> ~ earliest_instant sec nsec ->
+     split_before_a774a84 debug sec nsec = split debug sec nsec).
+Proof. exact F20_old_shape_refuted. Qed.
+Print Assumptions C20_F20_old_shape_refuted.
+
+(** ** Instants before 1970: std reports the distance back to the epoch; the code recovers floor semantics —
+    every pre-epoch instant, both profiles. *)
 Theorem C20_pre_epoch : forall tv_sec tv_nsec, valid_systemtime tv_sec tv_nsec -> tv_sec < 0 ->
   exists secs nanos,
     std_duration_since_epoch tv_sec tv_nsec = DErr secs nanos /\
     0 <= nanos < NANOS_PER_SEC /\ 0 <= secs /\
     secs * NANOS_PER_SEC + nanos = - (tv_sec * NANOS_PER_SEC + tv_nsec) /\
     split release tv_sec tv_nsec = Some (tv_sec, tv_nsec) /\
-    (~ F20_instant tv_sec tv_nsec -> split debug tv_sec tv_nsec = Some (tv_sec, tv_nsec)).
+    split debug tv_sec tv_nsec = Some (tv_sec, tv_nsec).
 Proof. exact pre_epoch. Qed.
 Print Assumptions C20_pre_epoch.
 
 Example C20_pre_epoch_nonvacuous :
   valid_systemtime (-1) 1 /\ -1 < 0 /\ std_duration_since_epoch (-1) 1 = DErr 0 999999999 /\
-  split debug (-1) 1 = Some (-1, 1).
+  split debug (-1) 1 = Some (-1, 1) /\
+  valid_systemtime I64_MIN 0 /\ I64_MIN < 0 /\ split debug I64_MIN 0 = Some (I64_MIN, 0).
 Proof. unfold valid_systemtime, I64_MIN, I64_MAX, NANOS_PER_SEC. repeat split; try discriminate; vm_compute; reflexivity. Qed.
 
-(** ** What is printed.  Every instant: `<year>-MM-DDThh:mm:ss.ffffffZ` with the fields of the instant and
-    ffffff = floor(tv_nsec / 1000) — truncated, never rounded up; the year is four digits in 0000..9999. *)
-Theorem C20_micros_truncate : forall tv_sec tv_nsec, valid_systemtime tv_sec tv_nsec ->
+(** ** What is printed.  Every instant, both profiles: `<year>-MM-DDThh:mm:ss.ffffffZ` with the fields of the
+    instant and ffffff = floor(tv_nsec / 1000) — truncated, never rounded up; the year text follows the three
+    branches of Display::fmt ([year_text]: four digits in 0000..9999; `+` and the shortest numeral above;
+    `-` and at least four digits below). *)
+Theorem C20_micros_truncate : forall md, md = release \/ md = debug ->
+  forall tv_sec tv_nsec, valid_systemtime tv_sec tv_nsec ->
   forall y m d h mi s, civil_from_secs tv_sec = ((y, m, d), (h, mi, s)) ->
   exists ytext,
-    format_system_time release tv_sec tv_nsec = Some (ytext ++ tail_text m d h mi s (tv_nsec / 1000)) /\
-    (0 <= y <= 9999 -> ytext = digits 4 y) /\
+    format_system_time md tv_sec tv_nsec = Some (ytext ++ tail_text m d h mi s (tv_nsec / 1000)) /\
+    year_text y ytext /\
     (tv_nsec / 1000) * 1000 <= tv_nsec < (tv_nsec / 1000) * 1000 + 1000.
-Proof. exact format_release_shape. Qed.
+Proof. exact format_shape. Qed.
 Print Assumptions C20_micros_truncate.
+
+Example C20_micros_truncate_nonvacuous :
+  format_system_time debug (-1) 999999999 = Some (rfc3339 1969 12 31 23 59 59 999999) /\
+  format_system_time release YEAR10000_SECS 1999 = Some (ch_plus :: digits 5 10000 ++ tail_text 1 1 0 0 0 1) /\
+  format_system_time release (YEAR0_SECS - 1) 0 = Some (ch_minus :: digits 4 1 ++ tail_text 12 31 23 59 59 0) /\
+  format_system_time debug I64_MIN 0 = Some (ch_minus :: digits 12 292277022657 ++ tail_text 1 27 8 29 52 0).
+Proof. repeat split; vm_compute; reflexivity. Qed.
 
 (** Years 0000..9999: exactly RFC 3339 with six fractional digits, 27 bytes, in both build profiles. *)
 Theorem C20_format : forall md, md = release \/ md = debug ->
@@ -121,9 +163,29 @@ Example C20_format_nonvacuous :
     [50;48;50;51; 45; 49;49; 45; 49;52; 84; 50;50; 58; 49;51; 58; 50;48; 46; 57;57;57;57;57;57; 90].
 Proof. unfold valid_systemtime, I64_MIN, I64_MAX, NANOS_PER_SEC. repeat split; try discriminate; vm_compute; reflexivity. Qed.
 
-(** ** Order: within years 0000..9999 successive instants print in non-decreasing byte order.
-    (Outside that range the code prints `+YYYYY` / `-YYYY`, for which byte order is not time order; RFC 3339
-    does not define those years.) *)
+(** ** Order.  Over the WHOLE range of SystemTime successive instants print non-decreasing fields:
+    [year; month; day; hour; minute; second; microsecond] in lexicographic order ([lex_le] on the field list). *)
+Theorem C20_monotone_fields : forall md, md = release \/ md = debug ->
+  forall s1 n1 s2 n2 d1 d2,
+  valid_systemtime s1 n1 -> valid_systemtime s2 n2 ->
+  s1 < s2 \/ (s1 = s2 /\ n1 <= n2) ->
+  from_systemtime md s1 n1 = Some d1 -> from_systemtime md s2 n2 = Some d2 ->
+  lex_le (fields_of d1) (fields_of d2).
+Proof. exact monotone_fields. Qed.
+Print Assumptions C20_monotone_fields.
+
+Example C20_monotone_fields_nonvacuous :
+  valid_systemtime I64_MIN 0 /\ valid_systemtime I64_MAX 999999999 /\ I64_MIN < I64_MAX /\
+  (exists d1 d2, from_systemtime debug I64_MIN 0 = Some d1 /\ from_systemtime debug I64_MAX 999999999 = Some d2 /\
+     fields_of d1 = [-292277022657; 1; 27; 8; 29; 52; 0] /\ fields_of d2 = [292277026596; 12; 4; 15; 30; 7; 999999]).
+Proof.
+  unfold valid_systemtime, I64_MIN, I64_MAX, NANOS_PER_SEC. repeat split; try discriminate.
+  eexists. eexists. repeat split; vm_compute; reflexivity.
+Qed.
+
+(** Corollary for the strings: within years 0000..9999 (fixed width) successive instants print in non-decreasing
+    byte order.  (Outside that range the code prints `+YYYYY` / `-YYYY`, for which byte order is not time order;
+    RFC 3339 does not define those years.) *)
 Theorem C20_monotone : forall md, md = release \/ md = debug ->
   forall s1 n1 s2 n2 o1 o2,
   valid_systemtime s1 n1 -> valid_systemtime s2 n2 ->
@@ -144,7 +206,7 @@ Proof.
   eexists. eexists. split; vm_compute; reflexivity.
 Qed.
 
-(** Outside 0000..9999 byte order really differs from time order (why the order clause is bounded). *)
+(** Outside 0000..9999 byte order really differs from time order (why the string corollary is bounded). *)
 Theorem C20_monotone_needs_year_range :
   exists o1 o2, format_system_time release (YEAR10000_SECS - 1) 0 = Some o1 /\
                 format_system_time release YEAR10000_SECS 0 = Some o2 /\ ~ lex_le o1 o2.
@@ -154,7 +216,8 @@ Proof.
 Qed.
 Print Assumptions C20_monotone_needs_year_range.
 
-(** ** The translator recognised every constant it was asked for (fails closed otherwise). *)
-Theorem C20_constants_recognised : gen_time_unrecognised = [].
-Proof. reflexivity. Qed.
-Print Assumptions C20_constants_recognised.
+(** ** The translators recognised every constant and every statement they were asked for (fail closed otherwise:
+    an unrecognised source makes every generated function the constant None and this list non-empty). *)
+Theorem C20_source_recognised : gen_time_unrecognised = [] /\ gen_datetime_unrecognised = [].
+Proof. split; reflexivity. Qed.
+Print Assumptions C20_source_recognised.
